@@ -759,7 +759,13 @@ func main() {
 	wseed := flag.Int64("wseed", 0, "internal")
 	wn := flag.Int64("wn", 0, "internal")
 	wfrom := flag.Int64("wfrom", 0, "internal")
+	wfile := flag.String("wfile", "", "internal")
 	o := cq.ParseFlags()
+	if *wname == "items" {
+		histWorker(*wfile, *wfrom)
+
+		return
+	}
 	if *wname != "" {
 		worker(*wname, *wseed, *wn, *wfrom)
 
@@ -772,14 +778,27 @@ func main() {
 	var fails []cq.ImplFailure
 	fz := &cq.Set{Name: "c02fuzz", Import: "IV.Check.C02Check", CaseType: "fuzz_case", Checks: []string{"fuzz_spec_failures"}}
 	sz := &cq.Set{Name: "c02size", Import: "IV.Check.C02Check", CaseType: "size_case", Checks: []string{"size_mismatches", "size_spec_failures"}}
+	hs := &cq.Set{Name: "c02hist", Import: "IV.Check.C02Check", CaseType: "hist_case", Checks: []string{"hist_spec_failures"}}
+	rs := &cq.Set{Name: "c02rc", Import: "IV.Check.C02Check", CaseType: "rc_case", Checks: []string{"rc_mismatches", "rc_spec_failures"}}
 	n := int64(o.Scale(20000, 400000))
 	seed := o.Seed
 	ts := targets()
+	var only *workItem
 	if o.Replay != "" {
-		var c fuzzCase
-		if cq.LoadReplay(o.Replay, &c) == "c02size" {
+		var c struct {
+			fuzzCase
+			Hist *histScn `json:"hist"`
+			RC   *rcScn   `json:"rc"`
+		}
+		set := cq.LoadReplay(o.Replay, &c)
+		switch {
+		case c.Hist != nil:
+			only, ts = &workItem{Hist: c.Hist}, nil
+		case c.RC != nil:
+			only, ts = &workItem{RC: stripRC(c.RC)}, nil
+		case set == "c02size":
 			sizeCases(sz, o.Rand())
-		} else {
+		default:
 			for _, t := range ts {
 				if t.name == c.Target {
 					n, seed = c.N, c.Seed
@@ -849,12 +868,25 @@ func main() {
 	}
 	extra := map[string]interface{}{"fuzz_inputs_total": total, "targets": len(ts), "inputs_run": total + len(sz.Cases),
 		"distinct_nontrivial_inputs": distinctTotal + len(sz.Cases)}
+	if o.Replay == "" || only != nil {
+		// after the byte-level fuzz (whose workers keep every core busy): the scenarios are paced in real time
+		hfails, hextra := histSets(o, self, hs, rs, only)
+		fails = append(fails, hfails...)
+		for k, v := range hextra {
+			extra[k] = v
+		}
+	}
 	cq.Write(o, "fuzz: per interceptor (17 configurations) one long-lived instance fed a seeded stream of inputs over its three paths "+
 		"(incoming RTP bytes, incoming RTCP bytes, outgoing RTP of any size/shape): random bytes, valid, mutated, X-bit on 12 bytes, small read buffers, "+
 		"TWCC with run length beyond the status count / fewer deltas than symbols, structured RFC 8888 blocks, payloads 0/1460/1461/huge; each followed by a "+
 		"well-formed probe; panics (caller or background goroutine, via worker processes), hangs, n_out > n_in and failing probes are failures; "+
-		"one case per target, non-trivial = at least 10 inputs; size: length-accounting cores compared with the Coq model",
-		[]*cq.Set{fz, sz}, extra, fails)
+		"one case per target, non-trivial = at least 10 inputs; size: length-accounting cores compared with the Coq model; "+
+		"hist: well-formed stateful congestion-control histories (cc interceptor with both pacers, rtpfb; TWCC and RFC 8888): packets paced in real time, "+
+		"feedback whose receive deltas follow an over-use / under-use / normal / alternating / burst / loss / re-ordering / duplicate pattern relative to the "+
+		"measured send times, then Read, Write, GetTargetBitrate, GetStats, Close, each under a watchdog; non-trivial = at least 6 calls; "+
+		"rc: call histories on the rate controller of a real SendSideBWE (every (state, usage) pair exhaustively to depth 2, random longer ones) "+
+		"compared with Model/RateCtlLock.v, non-trivial = at least 3 calls",
+		[]*cq.Set{fz, sz, hs, rs}, extra, fails)
 	_ = errors.New
 }
 
